@@ -15,7 +15,11 @@ Small == IF SmallSize = 10 THEN {0, 1, 34, 92, 96, 36, 123, 48, 97, 128} ELSE Sm
 Sample(n, len) == IF n = 0 THEN {} ELSE RandomSubset(n, [1..len -> Alphabet])
 Cases == StringsOver(Alphabet, MaxLen) \cup [1..SmallLen -> Small] \cup Sample(NSample3, 3) \cup Sample(NSample4, 4)
 
-ASSUME JsonSerialize(IOEnv.VERIF_OUT, SetToSeq(Cases))
+(* Long strings (C++ compilers limit the length of one literal, emitters may cut a long body into adjacent  *)
+(* literals): k plain characters, then n copies of a character that needs a multi-character escape, so that  *)
+(* escapes of every width lie across every possible cut position near 8190 escaped characters.               *)
+LongCases == {[i \in 1..k |-> 97] \o [i \in 1..un[2] |-> un[1]] : k \in 0..2, un \in {<<1, 2100>>, <<256, 1400>>, <<128512, 850>>}}
+ASSUME JsonSerialize(IOEnv.VERIF_OUT, SetToSeq(Cases) \o SetToSeq(LongCases))
 ASSUME PrintT(<<"@@PRINT@@ cases", Cardinality(Cases)>>)
 VARIABLE dummy
 Init == dummy = 0
